@@ -919,6 +919,55 @@ func (sc *Scope) trCall(x ECall) (Term, types.Type) {
 		}
 		rcv, _ := sc.Tr(x.Args[2])
 		return And(Eq(App(SInt, "fn_code", a), IntLit(int64(sc.vc.boundTag(obj.FullName())))), Eq(App(SInt, "fn_recv", a), rcv)), tBool
+	case "callresult":
+		// callresult(callee#k) / callresult(callee#k, i): the (i-th) value the k-th call of callee in this function returned
+		id, ok := x.Args[0].(EIdent)
+		if !ok {
+			sfail("callresult(callee#k)")
+		}
+		idx := 0
+		if len(x.Args) > 1 {
+			if n, isInt := x.Args[1].(EInt); isInt {
+				fmt.Sscanf(n.Val, "%d", &idx)
+			}
+		}
+		fr := sc.frame
+		if fr == nil {
+			fr = sc.vc.topFrame
+		}
+		if fr == nil {
+			sfail("callresult outside a function body")
+		}
+		name, ord := id.Name, 0
+		if j := strings.Index(name, "#"); j >= 0 {
+			fmt.Sscanf(name[j+1:], "%d", &ord)
+			name = name[:j]
+		}
+		for _, b := range sc.vc.fn.Blocks {
+			for _, in := range b.Instrs {
+				ci, isCall := in.(*ssa.Call)
+				if !isCall {
+					continue
+				}
+				n, o, ok := sc.vc.anchorNameOrd(in)
+				if !ok || n != name || o != ord {
+					continue
+				}
+				v, have := sc.vc.topFrame.regs[ci]
+				if !have {
+					sfail("callresult(%s): the call has not been executed on this path", id.Name)
+				}
+				res := ci.Call.Signature().Results()
+				if res.Len() == 1 {
+					return v.T, res.At(0).Type()
+				}
+				if idx < len(v.Tuple) {
+					return v.Tuple[idx].T, res.At(idx).Type()
+				}
+				sfail("callresult(%s, %d): no such result", id.Name, idx)
+			}
+		}
+		sfail("callresult(%s): no such call in the function", id.Name)
 	case "base":
 		// base(x): the allocation (array / object) the reference behind x lies in; distinct bases never overlap
 		a, _ := sc.Tr(x.Args[0])
